@@ -48,6 +48,7 @@ da05acb:C06
 f907567:C03
 3fbece2:C06,C05,C18
 f0e8e48:C09
+a354001:C03
 @5f18c17:C03
 @b475a6a:C03
 @c771c24:C03
